@@ -33,7 +33,11 @@ pub fn gen_history(rng: &mut Rng, max_symbols: u64, with_removal: bool) -> Sende
         let mut o = gen_object(rng, i, &spec, max_symbols / n as u64 + 4);
         if rng.chance(0.25) {
             o.cenc = *rng.pick(&[CencSpec::Zlib, CencSpec::Deflate, CencSpec::Gzip]);
-            o.source = SourceSpec::Buffer;
+            // (from a stream: handed over pre-encoded by the application)
+            o.source = match &o.source {
+                SourceSpec::Stream(s) | SourceSpec::StreamAt(s, _) | SourceSpec::StreamFailingSeek(s, _) => SourceSpec::PreEncodedStream(s.clone()),
+                _ => SourceSpec::Buffer,
+            };
         }
         if rng.chance(0.35) {
             o.carousel = Some(if rng.chance(0.5) {
